@@ -53,7 +53,7 @@ TOKS = ["int", "a", "1", "\"s\"", "'c'", "(", ")", "{", "}", "[", "]", ";", ",",
         "include", "define", "if", "while", "return", "struct", "typedef", "<", ">", "\n", "else", "sizeof", "static"]
 DIRECTIVES = ["include", "import", "define", "undef", "if", "ifdef", "ifndef", "elif", "else", "endif", "pragma", "error",
               "warning", "line", "foo", ""]
-DIR_ARGS = ["", "NAME", "name", "42", "\"file.h\"", "<file.h>", "<file.h", "file.h>", "\"file.h", "(", ")", "(1 +", "1 +", "+",
+DIR_ARGS = ["", "NAME", "name", "NULL", "int", "inline", "if", "sizeof", "return", "42", "\"file.h\"", "<file.h>", "<file.h", "file.h>", "\"file.h", "(", ")", "(1 +", "1 +", "+",
             "defined", "defined(", "defined(X)", "!defined X", "X Y", "X(a, b) a", "X(", "X(a", "X ##", "\\", "// c", "/* c",
             "NAME NAME NAME", "1 ? 2 : 3", "1 ? 2", "(((((1)))))", "0x", "'", "\"", "@"]
 DIR_TAILS = ["", "\n", "\nint\tf(void)\n{\n\treturn (0);\n}\n", "\n#endif\n"]
@@ -186,7 +186,13 @@ def run_programs(spec):
                 else:
                     texts[k] = texts[rng.randrange(first, len(items))]
                 judge(sh, q.name, "".join(texts), {"tag": tag, "edit": opn, "at": k}, "edit")
-        sh.sample({"name": p.name, "kinds": "complete + prefixes + edits", "chars": len(p.text())}, cap=1)
+        # garbage fragments as lines of their own at statement boundaries (the C07 workload, judged for totality here)
+        from nv.checks import c07
+        for q, kind in progs[:3]:
+            for _ in range(6 if not thorough else 40):
+                s3, frag, where = c07.insert_fragment(q, rng)
+                judge(sh, q.name, s3, {"tag": tag, "fragment": frag}, "fragment")
+        sh.sample({"name": p.name, "kinds": "complete + prefixes + edits + fragments", "chars": len(p.text())}, cap=1)
     return sh
 
 
@@ -239,7 +245,7 @@ def run_cli_cases(spec):
                 f.write(data)
             r = cliobs.run_cli([fname], cwd=d, timeout=120, trace=False)
             sh.case(fname + "\0" + repr(data), nontrivial=len(data) > 0)
-            sh.count("cli.no_traceback_and_status_0_or_1")
+            sh.count("cli.no_traceback_and_not_killed")
             sh.tally("outcomes", "cli:" + kind.split(":")[0] + ":" + str(r.rc))
             bad = None
             if r.timeout:
@@ -251,8 +257,8 @@ def run_cli_cases(spec):
                 where = [l.strip() for l in lines if l.strip().startswith("File ") and "/norminette/" in l]
                 fn = where[-1].rsplit(" in ", 1)[-1] if where else "?"
                 bad = ("cli_traceback", exc, fn)
-            elif r.rc not in (0, 1):
-                bad = ("cli_status", str(r.rc), "-")
+            elif r.rc is None or r.rc < 0:
+                bad = ("cli_killed", str(r.rc), "-")      # ended by a signal; any ordinary exit status is an answer
             if bad:
                 try:
                     data.decode("utf-8")
@@ -299,7 +305,7 @@ def replay(case, sh):
                 f.write(bytes.fromhex(case["data_hex"]))
             r = cliobs.run_cli([case["fname"]], cwd=tmp, trace=False)
             sh.evaluations += 1
-            if r.traceback() or r.rc not in (0, 1):
+            if r.traceback() or r.rc is None or r.rc < 0:
                 lines = [l for l in r.stderr.strip().split("\n") if l.strip()]
                 exc = lines[-1].split(":")[0] if lines else "?"
                 try:
@@ -322,8 +328,8 @@ def finish(merged, tier, seed):
         inc.append("only %d lexer runs" % a.get("lexer.total", 0))
     if a.get("pipeline.outcome_is_verdict_or_fatal", 0) < 2000:
         inc.append("only %d pipeline runs" % a.get("pipeline.outcome_is_verdict_or_fatal", 0))
-    if a.get("cli.no_traceback_and_status_0_or_1", 0) < 30:
-        inc.append("only %d CLI runs" % a.get("cli.no_traceback_and_status_0_or_1", 0))
+    if a.get("cli.no_traceback_and_not_killed", 0) < 30:
+        inc.append("only %d CLI runs" % a.get("cli.no_traceback_and_not_killed", 0))
     ratios = merged["cov"].pop("calibration_ratio", None) or [0]
     ratio = max(ratios)
     if ratio > 15000 / 20.0:
